@@ -149,6 +149,47 @@ Definition layout (len cs s : nat) : list (nat * nat) :=
 (* the sequence that is cut into windows *)
 Definition windowed (pair : bool) (first second : list N) : list N := if pair then second else first.
 
+(* what precedes the window in every emitted chunk: the *whole* first sequence for a pair *)
+Definition full_head (pair : bool) (first : list N) (cls sep : special) : list N :=
+  if pair then sp_toks cls ++ first ++ sp_toks sep else sp_toks cls.
+
+(* the windows of one encode_chunks call *)
+Definition ec_layout (pair : bool) (first second : list N) (limit : option N) (ov : N)
+           (cls sep : special) : list (nat * nat) :=
+  let W := budget pair first limit cls sep in
+  layout (length (windowed pair first second)) (N.to_nat W) (N.to_nat (W - ov)).
+
+(* the two encoded sequences, if the model encoded them (Item: second = []) *)
+Definition ec_inputs (pair : bool) (t1 t2 : option (list N)) : option (list N * list N) :=
+  match t1, (if pair then t2 else Some []) with
+  | Some f, Some s => Some (f, s)
+  | _, _ => None
+  end.
+
+(* totality: the decision table for the kind of outcome *)
+Inductive oclass := CErr | CPanic | CNoChunks | CChunks.
+Definition class_of (o : outcome) : oclass :=
+  match o with
+  | ErrOut => CErr
+  | PanicOut => CPanic
+  | Chunks [] => CNoChunks
+  | Chunks (_ :: _) => CChunks
+  end.
+Definition expected_class (pair : bool) (t1 t2 : option (list N)) (limit : option N) (ov : N)
+           (cls sep : special) : oclass :=
+  if sp_err cls || sp_err sep then CErr
+  else match ec_inputs pair t1 t2 with
+       | None => CErr
+       | Some (first, second) =>
+           let W := budget pair first limit cls sep in
+           let T := windowed pair first second in
+           if W =? 0 then CNoChunks                       (* no room for a content token *)
+           else if pair && (nlen T =? 0) then CNoChunks   (* pair with an empty second sequence *)
+           else if W <=? ov then CPanic                   (* assert!(overlap < chunk_size) *)
+           else if nlen T =? 0 then CNoChunks             (* nothing to encode *)
+           else CChunks
+       end.
+
 (* ---------------------------------------------------------------- property oracle *)
 (* Judges an observed outcome against the property, without using the model above.
    Failure codes (the check classifies a failing case by the set of codes):
